@@ -4,7 +4,9 @@ import json, os
 ROOT = os.path.dirname(os.path.dirname(os.path.abspath(__file__)))
 NOTE = ("exhaustive part: bounded design model (constants in evidence.design_runs); conformance part: sampled behaviours "
         "(seeded random / TLC-generated scenarios, bounded sizes); TLC 1.8, the recorder's projection and betfairlightweight are trusted")
-TECH = "explicit TLA+ specification; TLC exhaustive design check + TLC trace validation of traces recorded from the real code (simulation stack / live stack against an exchange double)"
+TECH = ("explicit TLA+ specification; TLC exhaustive design check + TLC trace validation of traces recorded from the real code (simulation stack / "
+        "live stack against an exchange double; seeded random scenarios, enumerated families, recorded market data) + TLC-generated behaviours of the closed "
+        "models (MC_SimRun, MC_LiveRun) replayed into the real code with state comparison")
 CHECKS = {
  "C01": "The risk gate is a TLA+ state machine (MC_Gate) model checked under acknowledgement discipline: accepted orders are within the limits counted in full and the brute-force worst-case loss stays within the per-selection limit (and TLC exhibits the breach caused by the implementation's REPLACE handling). On real runs TLC recomputes the brute-force worst case (Exposure.tla) of position + order at every accepted PLACE/REPLACE and the worst-case loss per selection at the end of every update.",
  "C02": "The request path is a TLA+ specification (Transaction.tla) model checked for exactly-once delivery, kind, per-call limit, one version per package, request order and nothing pending after exit; packages captured from real Transaction objects (three client kinds, true limits, up to 700 requests) must equal Transaction!Expected, and on simulation runs with the real controls every refused request's before/after snapshot is judged by TLC.",
@@ -25,12 +27,12 @@ CHECKS = {
  "C12": "Fault enumeration: every assignment of report outcomes to packages of 1..3 orders of each kind, permuted / missing cancel reports, API errors on attempts 1..4, orders completing between request and response, replayed on the real BetfairExecution (exchange double) and, for the simulated execution, random packages through the real SimulatedExecution; TLC judges none-stranded / report-to-owner / exact counts / bounded retries on every handler step.",
  "C13": "Isolation: TLC proves on the matching specification that a strategy's fills are independent of another strategy's orders when isolation is on (and finds a difference when it is off); ledgers of run(A), run(A+B), run(B+A) through the real stack are compared by TLC. Containment: exceptions injected into every callback kind; deliveries, step order and the lifecycle/accounting/blotter formulas are judged by TLC on the recorded runs.",
  "C14": "The listener filter and the event-group merge loop are a TLA+ specification (EventMerge.tla) model checked for sortedness / per-market order / exactly-once; its prediction must equal the delivered sequence of every real run; ledgers of runs in fresh processes with different hash seeds and clock offsets must be identical; the real clock must be restored, also after an aborted run.",
- "C15": "Blotter membership / live-list formulas checked by TLC on the design model and on traces of the real code.",
+ "C15": "Blotter coherence: membership / live-list formulas checked by TLC on the design models and on traces of the real code (simulation and live); at the end of every update of simulation runs TLC also judges the multiplicity of every order in the primary map and each of the six views, lookup identity by order id / bet id / trade id and the exactness of the status and matched filters against a recount (ViewsOK); in live traces the status filters as answered by the code are judged at every handler step.",
 }
 def chk(pid, text):
     return {"property_id": pid, "quick_cmd": "./check %s --tier quick" % pid, "thorough_cmd": "./check %s --tier thorough" % pid,
             "evidence_file": "/verif/evidence/%s.json" % pid, "replay_cmd_template": "./check %s --replay {path}" % pid,
-            "engine": "tlc-design + trace-validate", "level_claimed": {"category": "model_checking", "text": text, "design_ref": "DESIGN.md section 5 (%s)" % pid},
+            "engine": "tlc-design + model-replay + trace-validate", "level_claimed": {"category": "model_checking", "text": text, "design_ref": "DESIGN.md section 5 (%s)" % pid},
             "level_note": NOTE, "technique": TECH}
 ALL = ["C%02d" % i for i in range(1, 21)]
 NA_REASON = "check not built yet in this round (work in progress; see DESIGN.md section 9)"
@@ -43,6 +45,8 @@ m = {
            "source_commits": [], "add_only": True},
  "engines": [
   {"name": "tlc-design", "path": "harness/tlc.py", "serves_properties": sorted(CHECKS), "kind_free_text": "TLC exhaustive model checking of the TLA+ design models (spec/MC_*.tla) incl. non-vacuity witnesses"},
+  {"name": "model-replay", "path": "harness/replay_sim.py", "serves_properties": ["C01", "C02", "C03", "C04", "C05", "C06", "C07", "C08", "C09", "C10", "C11", "C12", "C15", "C18", "C20"],
+   "kind_free_text": "spec -> code: behaviours generated by TLC (-simulate) from the closed models MC_SimRun (one / two strategies, isolation on / off) and MC_LiveRun are stepped through the real FlumineSimulation / Flumine + BetfairExecution (harness/replay_sim.py, harness/replay_live.py); the real projected state must equal the model state after every update / step, and the recorded trace is validated like any other"},
   {"name": "live-trace-validate", "path": "spec/LiveTrace.tla", "serves_properties": ["C03", "C10", "C11", "C12", "C15", "C20"], "kind_free_text": "traces of the real Flumine / BetfairExecution against the exchange double (harness/livedrv.py) validated by TLC"},
   {"name": "trace-validate", "path": "spec/SimTrace.tla", "serves_properties": sorted(CHECKS), "kind_free_text": "traces recorded from the real code validated by TLC against the specification's transition function (conformance) and the property formulas (verdict)"}],
  "checks": [chk(p, CHECKS[p]) for p in sorted(CHECKS)],
